@@ -428,6 +428,13 @@ def validate_ser_traces(path, tag, V, pid, mine, module="Trace_Ser"):
             wrong_val = ev.get("st") != "ok" or ev.get("val") != [init.get("v")]
             wrong_pos = ev.get("st") == "ok" and ev.get("rpos") != len(init.get("bytes", []))
             is_mine = (pid == "C01" and wrong_val) or (pid == "C07" and wrong_pos)
+        if kind == "rows" and pid == "C18":
+            # Row-by-row equality with the machine's rows is the model's grain (names, order of equal offsets); the
+            # property is geometric: same bytes as plain serialization, rows inside the stream and on their units
+            n_ret = next((json.loads(x).get("n", 0) for x in run if '"ev": "ret"' in x or '"ev":"ret"' in x), None)
+            bad_geo = any(r["off"] < 0 or r["size"] < 0 or (n_ret is not None and r["off"] + r["size"] > n_ret)
+                          or (r["align"] > 1 and r["field"][-1:] == ["zero"] and r["off"] % r["align"] != 0) for r in ev["rows"])
+            is_mine = (not ev.get("same_bytes", True)) or bad_geo
         if is_mine:
             from .gen_key import key_of_desc
             V.violate(f"{pid}:trace-{kind}:{key_of_desc(init['t'])}", WHAT.get(kind, "recorded execution rejected") +
@@ -537,7 +544,8 @@ def corpus_check(tier, seed, V, tag, facts):
 TIERS = {
     # typeset, value level, preceding lengths of the body-only runs
     "quick": ("quick1", 1, [0, 1, 2, 3, 5, 7, 9, 15]),
-    "thorough": ("all", 1, [0, 1, 2, 3, 4, 5, 7, 8, 9, 15, 17, 31, 63]),
+    # (the whole universe to depth 2 with 13 preceding lengths did not finish in 45 minutes: 6 lengths)
+    "thorough": ("all", 1, [0, 1, 3, 7, 15, 63]),
 }
 
 
